@@ -1342,7 +1342,19 @@ impl<'de, R: Read<'de>> Parser<R> {
     }
 
     #[cfg(feature = "fast-float-parsing")]
-    fn f64_from_parts(&mut self, pos: bool, significand: u64, mut exponent: i32) -> Result<f64> {
+    fn f64_from_parts(
+        &mut self,
+        pos: bool,
+        mut significand: u64,
+        mut exponent: i32,
+    ) -> Result<f64> {
+        // Cancel trailing zeros of the significand against a negative
+        // exponent, so that e.g. `1230.0` is computed as 1230 rather than
+        // 12300 / 10, which may round twice.
+        while exponent < 0 && significand != 0 && significand % 10 == 0 {
+            significand /= 10;
+            exponent += 1;
+        }
         let mut f = significand as f64;
         loop {
             match POW10.get(exponent.unsigned_abs() as usize) {
